@@ -9,7 +9,7 @@ for n in $names; do
   d=$(mktemp -d /tmp/seedrun.XXXXXX)
   cp -r /repo/. $d/ && rm -rf $d/.git
   if ! (cd $d && patch -p1 -s < /verif/seeded/$n/patch.diff); then echo "$n: PATCH-FAILED"; rm -rf $d; rc=1; continue; fi
-  out=$(${GENQLCHECK:-/verif/bin/genqlcheck} -repo $d -property $pid -no-evidence 2>&1)
+  out=$(timeout 600 ${GENQLCHECK:-/verif/bin/genqlcheck} -repo $d -property $pid -no-evidence 2>&1)
   if echo "$out" | grep -q '^VIOLATION'; then echo "$n ($pid): CAUGHT  $(echo "$out" | grep -E '^(VIOLATED|UNDECIDED)' | head -2 | cut -c1-160 | tr '\n' '|')"; else echo "$n ($pid): MISSED"; rc=1; fi
   rm -rf $d
 done
